@@ -110,6 +110,7 @@ def run(chk):
     chk.configs = ["all-features"]
     chk.explanation = __doc__
     S = summary.Summaries(p)
+    S.indexed = True   # element reads keep their index in the terms of this module (R4 reads a byte position)
 
     ad = p.method(VERIFIER, "assert_domain")
     iv = p.method(VERIFIER, "is_valid_rp_id")
@@ -226,20 +227,44 @@ def run(chk):
                 host_side = (lambda x: isinstance(x, tuple) and x and x[0] == "call" and names.is_(x[1], "Url::domain")) if arm == "Web" else (lambda x: isinstance(x, tuple) and len(x) == 3 and x[0] == "field" and x[2] == "host")
                 is_strip = lambda x: is_callee(x, "str::strip_suffix") and flow.term_contains(x[2][0], host_side) and not flow.term_contains(x[2][0], lambda y: y == rp_term) and x[2][1] == rp_term
                 strips = [x for t, labs, fn, w in o.conds for x in (flow._subjects(flow.presence_test(t, labs)[0], True) if flow.presence_test(t, labs) else []) if flow.asserts_ok(t, labs, is_strip) and is_strip(x)]
+                # the same relation spelled with ends_with: host.ends_with(rp_id) on its true edge (host and rp in that order)
+                is_endsw = lambda x: is_callee(x, "str::ends_with") and len(x[2]) == 2 and flow.term_contains(x[2][0], host_side) and not flow.term_contains(x[2][0], lambda y: y == rp_term) and x[2][1] == rp_term
+                ends = [flow.bool_atom(t, labs)[0] for t, labs, fn, w in o.conds if flow.bool_atom(t, labs)[1] is True and is_endsw(flow.bool_atom(t, labs)[0])]
+                HOST = (strips[0][2][0] if strips else (ends[0][2][0] if ends else None))
+
+                def strip_bytes(x):
+                    while isinstance(x, tuple) and len(x) == 4 and x[0] == "call" and x[2] and (names.is_(x[1], "str::as_bytes") or names.is_(x[1], "Deref::deref") or names.is_(x[1], "AsRef::as_ref")):
+                        x = x[2][0]
+                    return x
+
+                def is_len(x, of):
+                    return isinstance(x, tuple) and len(x) == 4 and x[0] == "call" and x[1].endswith("::len") and strip_bytes(x[2][0]) == of
+
+                def is_cut(x):
+                    """len(host) - len(rp id): where the suffix starts"""
+                    if isinstance(x, tuple) and len(x) == 3 and x[0] == "field" and x[2] == "0":
+                        x = x[1]
+                    return isinstance(x, tuple) and len(x) == 4 and x[0] == "binop" and x[1].startswith("Sub") and is_len(x[2], HOST) and is_len(x[3], rp_term)
+
+                def is_cut_minus_one(x):
+                    if isinstance(x, tuple) and len(x) == 3 and x[0] == "field" and x[2] == "0":
+                        x = x[1]
+                    return isinstance(x, tuple) and len(x) == 4 and x[0] == "binop" and x[1].startswith("Sub") and is_cut(x[2]) and x[3] == ("const", 1)
                 equal = any((flow.eq_test(t, labs) or (None, None))[1] is True and rp_term in flow.eq_test(t, labs)[0] and any(flow.term_contains(y, host_side) for y in flow.eq_test(t, labs)[0]) for t, labs, fn, w in o.conds)
                 if equal:
                     w4 = w4 or "host == rp id"
-                elif not strips:
+                elif not strips and not ends:
                     r4 = False
                     rel = [flow.term_str(t)[:100] for t, labs, fn, w in o.conds if flow.term_contains(t, lambda x: x == rp_term)]
                     w4 = "row with a supplied RP ID at %s: no test that the origin host ends with the RP ID (strip_suffix(host, rp_id) / equality) — found %s" % (site, rel)
                 else:
                     from . import quant
                     F = quant.Formulas(N)
-                    rest = ("payload", strips[0])
+                    rest = ("payload", strips[0]) if strips else ("no-remainder-term",)
                     parts = []
                     for t, labs, fn, w in o.conds:
-                        if flow.term_contains(t, lambda x: x == rest) or (flow.term_contains(t, lambda x: is_callee(x, "str::starts_with")) and flow.term_contains(t, lambda x: x == rp_term)):
+                        if flow.term_contains(t, lambda x: x == rest) or (flow.term_contains(t, lambda x: is_callee(x, "str::starts_with")) and flow.term_contains(t, lambda x: x == rp_term)) \
+                                or flow.term_contains(t, is_cut) or (flow.term_contains(t, lambda x: is_callee(x, "slice::first")) and flow.term_contains(t, lambda x: x == rp_term)):
                             parts.append(F.of_edge(t, labs))
                     fm = quant.f_and(*parts) if parts else ("true",)
                     atoms = {}
@@ -261,6 +286,15 @@ def run(chk):
                                 k = "D"
                             elif names.is_(cal, "str::starts_with") and args[0] == rp_term and dot:
                                 k = "S"
+                        if f[0] == "eq" and len(f[1]) == 2:
+                            a_, b_ = tuple(f[1])
+                            for x_, y_ in ((a_, b_), (b_, a_)):
+                                if is_cut(x_) and y_ == ("const", 0):
+                                    k = "E"      # the suffix starts at 0: host and rp id are equal
+                                elif isinstance(x_, tuple) and len(x_) == 3 and x_[0] == "elem_at" and strip_bytes(x_[1]) == HOST and is_cut_minus_one(x_[2]) and y_ == ("const", 46):
+                                    k = "D"      # the byte just before the suffix is '.'
+                                elif is_callee(x_, "slice::first") and strip_bytes(x_[2][0]) == rp_term and y_ == normal.some(("const", 46)):
+                                    k = "S"      # the rp id itself starts with '.'
                         atoms[f] = k
                         return k is not None
                     known = leaf(fm)
